@@ -426,3 +426,40 @@ def model_record(tid, inst, cf, ops=None, k=0):
            'coord4': coord4, 'obs4': [[int(round(4 * p[0])), int(round(4 * p[1]))] for p in inst['path']],
            'fresh': all(o[0] == 'match' for o in (ops or [('match', T)])), 'entries': entries, 'path': path}
     return rec, ''
+
+
+# ------------------------------------------------------------------ recording for spec/Views.tla
+def views_record(tid, inst, cf, ops=None, unique=False):
+    conc = Conc()
+    evs, m = run_geo(inst, cf, conc, ops=ops, unique=unique, full=True)
+    ev = evs[-1]
+    if ev['exc'] or not m.lattice_best:
+        return None
+    lb = m.lattice_best
+    path = []
+    for i, x in enumerate(lb):
+        pi = x.edge_m.pi if x.edge_m.pi is not None else x.edge_m.p1
+        e = {'st': st_of(x, conc), 'obs': x.obs, 'ne': x.obs_ne, 'lp': fx(x.logprob), 'dist': mx(x.dist_obs),
+             'ti': mx(x.edge_m.ti if x.edge_m.ti is not None else 0.0, 10000), 'ca': 0, 'cb1': 0, 'cb2': 0, 'cz': 0}
+        if i > 0:
+            p = lb[i - 1]
+            ppi = p.edge_m.pi if p.edge_m.pi is not None else p.edge_m.p1
+            e['ca'] = mx(_d(ppi, pi))
+            if p.edge_m.p2 is not None:
+                e['cb1'] = mx(_d(ppi, p.edge_m.p2))
+                e['cb2'] = mx(_d(p.edge_m.p2, pi))
+            po = p.edge_o.pi if p.edge_o.pi is not None else p.edge_o.p1
+            xo = x.edge_o.pi if x.edge_o.pi is not None else x.edge_o.p1
+            e['cz'] = mx(_d(po, xo))
+        path.append(e)
+    v = {'all_distances': [mx(d) for d in m.path_all_distances()], 'onlynodes_exc': '', 'get_path': [], 'withjumps': [],
+         'pred_distance': mx(m.path_pred_distance()), 'obs_distance': mx(m.path_distance()), 'best_of_column': []}
+    try:
+        v['get_path'] = [conc.unlab(n) for n in m.path_pred_onlynodes]
+    except Exception as ex:
+        v['onlynodes_exc'] = repr(ex)[:100]
+    v['withjumps'] = [conc.unlab(n) for n in m.path_pred_onlynodes_withjumps]
+    for c in range(len(m.lattice)):
+        g = m.get_matching(c)
+        v['best_of_column'].append(fx(g.logprob) if g is not None else -BIG)
+    return {'tid': tid, 'unique': unique, 'path': path, 'lat': ev['lat'], 'views': v}
